@@ -144,6 +144,7 @@ namespace
     struct World
     {
         int                              policy{0};  // 0 queue, 1 burst, 2 conflating
+        int                              extra{0};   // further (idle) push source nodes in the same root graph: they share the engine's one pending flag
         int                              vkind{0};   // 0 scalar TS<int>, 1 collection TSD<str, TS<int>> (queue / conflating)
         std::size_t                      cap{0};
         std::vector<PushSourceSender>    senders;    // one per start (epoch)
@@ -220,9 +221,15 @@ namespace
 
         GraphBuilder gb;
         gb.add_node(make_push_source_node_with_view(*out_ts, policy, std::move(extension)));
+        // idle queue sources after the observed one: every push node of the prefix is evaluated in a pushed
+        // cycle, and the observed source's re-arm must survive their evaluation
+        for (int i = 0; i < w.extra; ++i)
+        {
+            gb.add_node(make_push_source_node(*ts_int, make_push_source_queue_policy(*ts_int, 0), [](PushSourceSender) {}));
+        }
         gb.add_node(NodeBuilder::native(std::move(sink_schema), std::move(sink_cb),
                                         hgraph::testing::single_input_endpoint(*in_schema, *out_ts)));
-        gb.add_edge(GraphEdge{.source_node = make_graph_edge_source(0), .source_path = {}, .target_node = 1, .target_path = {0}});
+        gb.add_edge(GraphEdge{.source_node = make_graph_edge_source(0), .source_path = {}, .target_node = (std::size_t)(1 + w.extra), .target_path = {0}});
 
         GraphExecutorBuilder eb;
         eb.graph_builder(std::move(gb))
@@ -295,6 +302,7 @@ namespace
         w.policy = (int)c[0][1];
         w.cap    = (std::size_t)c[0][2];
         w.vkind  = c[0].size() > 4 && c[0][4] == 1 ? 1 : 0;
+        w.extra  = c[0].size() > 5 ? (int)std::clamp<i64>(c[0][5], 0, 3) : 0;
         const int         vkind = w.vkind;
         const std::size_t nprod = (std::size_t)std::max<i64>(1, c[0][3]);
         Obs               obs{&w};
@@ -554,6 +562,7 @@ namespace
         w.on_started = [&] { started_promise.set_value(); };
 
         const i64 clock_mode = c[0].size() > 9 ? c[0][9] : 0;
+        w.extra              = c[0].size() > 10 ? (int)std::clamp<i64>(c[0][10], 0, 3) : 0;
         g_clock_granule.store(clock_mode, std::memory_order_release);
         g_clock_frozen.store(us(hgraph::testing::wall_now()), std::memory_order_release);
         if (clock_mode != 0) { verif::hooks().wall_clock.store(&virtual_clock_cb, std::memory_order_release); }
